@@ -162,6 +162,60 @@ func listLen(r *core.Rand, min, max int, small bool) int {
 }
 
 // Text draws a text of 0…255 arbitrary octets, biased to alignment boundaries.
+// TextN draws a text of exactly n octets from one of several alphabets: ASCII letters, arbitrary
+// octets, valid 2-, 3- and 4-octet UTF-8 sequences (so that the count of characters is a half,
+// a third or a quarter of the count of octets), a mixture, NULs.
+func TextN(r *core.Rand, n int) string {
+	b := make([]byte, 0, n+4)
+	mode := r.Intn(7)
+	for len(b) < n {
+		m := mode
+		if mode == 5 {
+			m = r.Intn(5)
+		}
+		switch m {
+		case 0:
+			b = append(b, byte('a'+r.Intn(26)))
+		case 1:
+			b = append(b, r.U8())
+		case 2:
+			b = append(b, byte(0xC2+r.Intn(0x1E)), byte(0x80+r.Intn(0x40)))
+		case 3:
+			b = append(b, byte(0xE1+r.Intn(0x0C)), byte(0x80+r.Intn(0x40)), byte(0x80+r.Intn(0x40)))
+		case 4:
+			b = append(b, byte(0xF1+r.Intn(3)), byte(0x80+r.Intn(0x40)), byte(0x80+r.Intn(0x40)), byte(0x80+r.Intn(0x40)))
+		default:
+			b = append(b, 0)
+		}
+	}
+	for i := n; i < len(b); i++ { // cut inside a sequence: finish with ASCII
+		b[i] = 0
+	}
+	b = b[:n]
+	// a multi-octet sequence cut at the end is replaced by ASCII so that the text stays valid UTF-8
+	// in the pure multi-octet modes
+	if mode >= 2 && mode <= 4 {
+		for i := n - 1; i >= 0 && i >= n-3; i-- {
+			if b[i] >= 0xC0 { // a lead byte whose sequence does not fit
+				need := 2
+				if b[i] >= 0xE0 {
+					need = 3
+				}
+				if b[i] >= 0xF0 {
+					need = 4
+				}
+				if i+need > n {
+					for j := i; j < n; j++ {
+						b[j] = 'x'
+					}
+				}
+				break
+			}
+		}
+	}
+	return string(b)
+}
+
 func Text(r *core.Rand) string {
 	var n int
 	switch r.Intn(12) {
